@@ -84,6 +84,10 @@ func Reset() {
 	load()
 	Failed, Events, Reached, Diverged = nil, nil, nil, nil
 	Facts = map[string]string{}
+	clockStarted, clockNS, SleepCount, MaxSleeps = false, 0, 0, 0
+	Files = map[string]string{}
+	FileWrites = nil
+	Timers = nil
 }
 
 func next(label string) (string, bool) {
@@ -184,6 +188,11 @@ func Assume(c bool) {
 
 type AssumeFailed struct{}
 
+// Constrain is Assume for a range constraint on a FRESH draw that is satisfiable
+// by construction: the engine adds it to the path condition without a
+// feasibility query. Natively identical to Assume.
+func Constrain(c bool) { Assume(c) }
+
 func Assert(c bool, id string) {
 	if !c {
 		mu.Lock()
@@ -279,11 +288,11 @@ const (
 func Now() time.Time {
 	if !clockStarted {
 		clockNS = Int64("clock.start")
-		Assume(And(clockNS >= 1, clockNS < clockMax))
+		Constrain(And(clockNS >= 1, clockNS < clockMax))
 		clockStarted = true
 	}
 	d := Int64("clock.step")
-	Assume(And(d >= 0, d < clockStep))
+	Constrain(And(d >= 0, d < clockStep))
 	clockNS += d
 	return TimeAt(clockNS)
 }
@@ -298,15 +307,27 @@ func ClockNS() int64 {
 
 func Since(t time.Time) time.Duration { return Now().Sub(t) }
 
+// MaxSleeps bounds polling loops: from the MaxSleeps-th Sleep on, every Sleep
+// additionally advances the clock by ~13 days, so that any deadline-bounded wait
+// loop ends (bound "polls"; waits needing more polls are outside the claim).
+var (
+	MaxSleeps  int
+	SleepCount int
+)
+
 // Sleep advances the clock by at least d.
 func Sleep(d time.Duration) {
 	Now()
 	extra := Int64("clock.sleep.extra")
-	Assume(And(extra >= 0, extra < clockStep))
+	Constrain(And(extra >= 0, extra < clockStep))
 	if d > 0 {
 		clockNS += int64(d)
 	}
 	clockNS += extra
+	SleepCount++
+	if MaxSleeps > 0 && SleepCount >= MaxSleeps {
+		clockNS += clockStep
+	}
 	Event("sleep")
 }
 
@@ -376,4 +397,57 @@ func GTIDBits(s string) uint64 {
 		panic("verifnd.GTIDBits: not a GTID token: " + s)
 	}
 	return u
+}
+
+// ---------------------------------------------------------------------------
+// Timers (time.AfterFunc): registered, fired by the harness scheduler when the
+// clock has passed the deadline.
+
+type PendingTimer struct {
+	At      int64
+	F       func()
+	T       *time.Timer
+	Stopped bool
+	Fired   bool
+}
+
+var Timers []*PendingTimer
+
+// NewIdleTimer returns a *time.Timer that never fires by itself.
+func NewIdleTimer() *time.Timer {
+	t := time.NewTimer(time.Duration(1) << 62)
+	t.Stop()
+	return t
+}
+
+func AfterFunc(d time.Duration, f func()) *time.Timer {
+	t := NewIdleTimer()
+	Timers = append(Timers, &PendingTimer{At: ClockNS() + int64(d), F: f, T: t})
+	Event("timer armed")
+	return t
+}
+
+// StopTimer replaces t.Stop() at the instrumented call sites.
+func StopTimer(t *time.Timer) bool {
+	for _, p := range Timers {
+		if p.T == t && !p.Stopped && !p.Fired {
+			p.Stopped = true
+			return true
+		}
+	}
+	return false
+}
+
+// FireDueTimers runs every armed timer whose deadline has passed (clock permitting).
+func FireDueTimers() int {
+	n := 0
+	for _, p := range Timers {
+		if !p.Stopped && !p.Fired && ClockNS() >= p.At {
+			p.Fired = true
+			n++
+			Event("timer fired")
+			p.F()
+		}
+	}
+	return n
 }
